@@ -778,6 +778,18 @@ func (b *Builder) Finish() error {
 		return b.buildError
 	}
 
+	// A ".meta" file without its shard is left behind when an earlier run was
+	// killed between removing a shard and removing its metadata file. Nothing
+	// reads it, but a new shard renamed to that name would be served with its
+	// stale repository metadata and file tombstones, so remove it first.
+	for _, final := range b.finishedShards {
+		if paths, _ := IndexFilePaths(final); len(paths) == 1 && paths[0] != final {
+			if err := os.Remove(paths[0]); err != nil {
+				b.buildError = err
+			}
+		}
+	}
+
 	// Collect a map of the old shards on disk. For each new shard we replace we
 	// delete it from toDelete. Anything remaining in toDelete will be removed
 	// after we have renamed everything into place.
